@@ -57,8 +57,7 @@ def budgets(run):
             'runs_per_program': 6 if q else 12}
 
 
-def executable_programs(run, info):
-    b = budgets(run)
+def corpus_programs(run):
     cdir = os.path.join(common.VERIF, 'corpus', run.prop)
     if os.path.isdir(cdir):
         for fn in sorted(os.listdir(cdir)):
@@ -71,6 +70,12 @@ def executable_programs(run, info):
                 p.meta['expect_class'] = j.get('expect_class')
                 p.meta['finding'] = j.get('finding')
                 yield p
+
+
+def executable_programs(run, info):
+    b = budgets(run)
+    for p in corpus_programs(run):
+        yield p
     rng = random.Random(run.rng.getrandbits(48))
     for p in ds.scenario_programs(rng, b['scenario_scale']):
         yield p
@@ -235,7 +240,8 @@ def _work(task):
                 continue
             seen_fail.add(ok)
             f = {'args': list(args), 'decisions': list(dec), 'detail': o['detail'], 'fid': o['act'].fid, 'pre_class': o.get('pre_class'),
-                 'kind': o['kind'], 'ref': None, 'where': o.get('where')}
+                 'kind': o['kind'], 'ref': None, 'where': o.get('where'),
+                 'nonpath_kind': None if o.get('view') is None or not o['view'].ok else o['view'].nonpath_kind}
             v = o.get('view')
             q = None
             if v is not None and v.ok:
@@ -352,6 +358,7 @@ def dynamic_phase(run, prop, programs):
     for c in stale:
         run.notes.append('known finding %s: its witness (corpus/%s/%s.json) no longer fails in class %s — the class is not attributed any more; '
                          'update the model and drop the hypothesis' % (listed[c].get('id'), prop, listed[c].get('id'), c))
+    pending = []
     for r, t in zip(results, tasks):
         if r['skipped']:
             continue
@@ -360,7 +367,10 @@ def dynamic_phase(run, prop, programs):
             classes[f['cls'] or 'UNCLASSIFIED'] += 1
             case = {'program': t[1], 'args': f['args'], 'decisions': f['decisions'], 'function_id': f['fid'], 'observation': f['detail'],
                     'class_predicate': f['cls'], 'lean': f['lean']}
-            run.fail('%s: %s' % (prop, f['detail']), case, cls)
+            pending.append((cls is not None, len(r['fsrc']), len(pending), '%s: %s' % (prop, f['detail']), case, cls))
+    # smallest unattributed programs first: these become the replay files
+    for _, _, _, what, case, cls in sorted(pending, key=lambda x: x[:3]):
+        run.fail(what, case, cls)
     run.cov['known_finding_witnesses_still_failing'] = sorted(witnessed)
     run.cov['dynamic'] = {'programs': dict(kinds), 'features': dict(feats), 'skipped': dict(skipped), 'stats': dict(stats),
                           'failing_by_class': dict(classes), 'trace_theorem_tally': dict(tally),
@@ -389,6 +399,13 @@ def _flags(x):
     return head, d
 
 
+def _nonpath_class(f):
+    """the executed node sequence is not a path of the real graph (hypothesis `isPathB`, property C05)"""
+    if f.get('nonpath_kind') == 'jump_in_handler_of_try_with_finally':
+        return 'jump_in_handler_of_try_with_finally'
+    return 'executed_trace_not_a_cfg_path'
+
+
 def classify_c06(f, ans):
     pre = f.get('pre_class')
     if pre == 'read_inside_lambda_body':
@@ -408,7 +425,7 @@ def classify_c06(f, ans):
     if not fl.get('postfix') or not fl.get('gen') or fl.get('other_kill'):
         return None
     if not fl.get('path'):
-        return 'executed_trace_not_a_cfg_path'
+        return _nonpath_class(f)
     if fl.get('for_target'):
         return 'for_target_defined_before_zero_trip'
     return None
@@ -423,7 +440,7 @@ def classify_c07(f, ans):
     if not fl.get('postfix') or fl.get('other_kill'):
         return None
     if not fl.get('path'):
-        return 'executed_trace_not_a_cfg_path'
+        return _nonpath_class(f)
     if fl.get('gen'):
         return 'for_target_live_across_zero_trip' if fl.get('for_target') else None
     # the read is not generated at the reading step: which readers are not covered, and why
